@@ -65,6 +65,10 @@ func (in *Interp) checkErr(ps *PlanSet, src reflect.Value, err error, modes map[
 		return "returned error neither wraps the error of a failing custom function nor is an enum @error: " + err.Error()
 	}
 	switch {
+	case modes["nowrap"]:
+		if _, direct := err.(Sentinel); !direct && isSentinel {
+			return "no error wrapping is in effect but the returned error is not the custom function's error itself: " + err.Error()
+		}
 	case modes["wrapusing"]:
 		elems, _ := flattenPath(err)
 		ok, why := in.matchPath(ps.Root, src, elems, true, "", 0)
